@@ -311,6 +311,14 @@ func genArpaName(rng *rand.Rand) string {
 			ls[i] = pick(rng, arpaLabelKinds...)
 		}
 	}
+	if n > 0 && rng.IntN(9) == 0 {
+		// bytes outside ASCII where a nibble or an octet is expected: a lone byte, a two-byte rune
+		// (on its own, or with a digit before or after it, so that its second byte sits where
+		// the next label or dot is expected), a full-width digit
+		k := rng.IntN(n)
+		hi := pick(rng, "\xe4", "\xff", "\x80", "ä", "é", "１", "\xc3")
+		ls[k] = pick(rng, hi, hi, ls[k]+hi, hi+ls[k], hi+hi)
+	}
 	s := strings.Join(append(ls, root), ".")
 	if rng.IntN(12) == 0 {
 		s = pick(rng, "foo.", "a.b.", "1.", "f.", ".", "xn--.", "srv100.", "net172.", "x1.", "host255.") + s
@@ -355,6 +363,17 @@ func genArpaName(rng *rand.Rand) string {
 
 func genIPBytes(rng *rand.Rand) []byte {
 	n := pick(rng, 4, 4, 16, 16, 16, 0, 1, 3, 5, 15, 17, 20)
+	if rng.IntN(12) == 0 {
+		// an address under a well-known IPv6 prefix that embeds or stands for IPv4 (NAT64, 6to4,
+		// Teredo, IPv4-compatible, …) with an IPv4-looking tail: it is an IPv6 address
+		b := make([]byte, 16)
+		copy(b, pick(rng, wellKnownV6...))
+		copy(b[12:], randBytes(rng, 4))
+		if rng.IntN(3) == 0 {
+			copy(b[12:], []byte{pick(rng, byte(0), 1, 10, 127, 192), byte(rng.IntN(2)), 0, byte(rng.IntN(3))})
+		}
+		return b
+	}
 	if rng.IntN(6) == 0 {
 		// a well-formed value (IPv4 in 16-byte form, an all-ones mask, a CIDR mask, plain IPv6)
 		// cut or padded to every length around the legal ones: code that recognises a form by
